@@ -57,6 +57,7 @@ def run(rep):
         rep.add(grammar.check_after_terminator(pc, 'C05', k))
     rep.add(grammar.check_terminator(pc, 'C05'))
     region_rule_obligations(rep)
+    sc.lexical_independence(rep, 'C05')
     rep.functions += [grammar.PROCESS, 'sqlparse.engine.statement_splitter.StatementSplitter._reset']
     common.run_bounded(rep, 'C05', rep.tier, rep.seed)
     rep.assumptions += [
